@@ -461,6 +461,13 @@ def gen_program(rng, n_meas=None, n_ops=None, rational_only=False, allow_pairs=T
     return steps, corr
 
 
+def has_scale_factor(steps):
+    """a constant outside (2^-20, 2^20): such programs are judged by the oracle only -- in the rational correspondence the
+    cancellation noise of doubles (1e-16 of 2^30-sized intermediate terms) exceeds the 1e-9 comparison of small results"""
+    return any(r[0] == "const" and r[1] != 0 and not (2.0 ** -20 < abs(r[1]) < 2.0 ** 20)
+               for st in steps if st[0] in ("un", "bin", "deg") for r in st[2:] if isinstance(r, (list, tuple)))
+
+
 def effective_corr(corr):
     """the correlations in force after all calls: per unordered pair the LAST one"""
     last = {}
